@@ -17,6 +17,7 @@ package main
 
 import (
 	"bytes"
+	"context"
 	"crypto/ecdh"
 	"crypto/elliptic"
 	"errors"
@@ -30,6 +31,7 @@ import (
 	"time"
 
 	"github.com/iDigitalFlame/xmt/c2"
+	"github.com/iDigitalFlame/xmt/c2/cfg"
 	"github.com/iDigitalFlame/xmt/com"
 	"github.com/iDigitalFlame/xmt/data"
 	"github.com/iDigitalFlame/xmt/data/crypto/subtle"
@@ -424,7 +426,8 @@ type fconn struct {
 	rbuf      []byte
 	failWrite bool
 	readErr   bool
-	kind      string // kind of the injected error (see errKinds)
+	kind      string        // kind of the injected error (see errKinds)
+	closed    chan struct{} // closed by Close (listen() closes the connection after session() returned and the error branch ran)
 	triggered bool
 	onRead    func(req []byte) ([]byte, bool)
 }
@@ -460,12 +463,42 @@ func (c *fconn) Read(b []byte) (int, error) {
 	c.rbuf = c.rbuf[n:]
 	return n, nil
 }
-func (*fconn) Close() error                     { return nil }
+func (c *fconn) Close() error {
+	if c.closed != nil {
+		select {
+		case <-c.closed:
+		default:
+			close(c.closed)
+		}
+	}
+	return nil
+}
 func (*fconn) LocalAddr() net.Addr              { return addr{} }
 func (*fconn) RemoteAddr() net.Addr             { return addr{} }
 func (*fconn) SetDeadline(time.Time) error      { return nil }
 func (*fconn) SetReadDeadline(time.Time) error  { return nil }
 func (*fconn) SetWriteDeadline(time.Time) error { return nil }
+
+// prof is the Profile of the client Session: its Connect hands the connections of the harness,
+// one per exchange, to the REAL (*Session).listen loop; once the harness is done it only fails, and
+// listen() leaves through its "too many errors" exit.
+type prof struct{ conns chan net.Conn }
+
+func (prof) Jitter() int8                               { return 0 }
+func (prof) Switch(bool) bool                           { return false }
+func (prof) Sleep() time.Duration                       { return 0 }
+func (prof) WorkHours() *cfg.WorkHours                  { return nil }
+func (prof) KillDate() (time.Time, bool)                { return time.Time{}, false }
+func (prof) TrustedKey(data.PublicKey) bool             { return true }
+func (prof) Next() (string, cfg.Wrapper, cfg.Transform) { return "", nil, nil }
+func (p prof) Connect(context.Context, string) (net.Conn, error) {
+	c, ok := <-p.conns
+	if !ok {
+		return nil, errFault
+	}
+	return c, nil
+}
+func (prof) Listen(context.Context, string) (net.Listener, error) { return nil, errFault }
 
 const (
 	idClientData = 0xC0 // >= task.MvRefresh: reaches the handler
@@ -511,6 +544,10 @@ type world struct {
 	srvIdx      int
 	taint       string           // the known-finding shape this history has entered ("" = none)
 	leftover    []int            // payload of a data Packet that stayed queued behind a re-key announcement
+	prof        *prof            // hands connections to the running listen() loop
+	loop        *c2.VerifC06Loop // the running (*Session).listen goroutine of w.cli
+	consecFail  int              // consecutive exchanges session() reported failed (listen() gives up after 6)
+	sinceLoss   int              // completed exchanges since the history entered its finding shape
 	cc          *c2.VerifC06Conn // the server connection of the open channel (nil = no channel)
 	chanRekeyed bool             // an idle tick inside a channel drew a re-key
 	oldShare    *data.SharedKeys
@@ -552,12 +589,28 @@ func toBytes(v []int) []byte {
 	return b
 }
 
-func (w *world) fail(what, kind string) {
-	key := w.taint
+func (w *world) fail(what, kind string) { w.failKey(what, kind, w.taint) }
+
+// failKey records an oracle failure under the given key ("" = no finding shape: keyed by the kind of round).
+func (w *world) failKey(what, kind, key string) {
 	if key == "" {
 		key = "history-no-fault:" + kind
 	}
 	out.Fail(what, key, map[string]interface{}{"history": w.hist, "finding_shape": w.taint})
+}
+
+// stopLoop ends the listen() goroutine of the current client Session and waits for it.
+func (w *world) stopLoop() {
+	if w.loop == nil {
+		return
+	}
+	close(w.prof.conns)
+	select {
+	case <-w.loop.Done:
+	case <-time.After(20 * time.Second):
+		out.Fail("listen() did not return after its connector only failed", "harness-listen-stuck", nil)
+	}
+	w.loop, w.prof = nil, nil
 }
 
 // do executes one round: one exchange, plus a second one when a data Packet stayed queued
@@ -620,8 +673,8 @@ func (w *world) channel(r round) {
 	r.Fault, r.Err, r.Forget, r.Short = "", "", 0, false
 	switch r.Kind {
 	case "chan-start":
-		if w.cc != nil || ss == nil || c2.VerifC06QueueLen(w.cli) > 0 {
-			return
+		if w.cc != nil || ss == nil || c2.VerifC06QueueLen(w.cli) > 0 || w.taint != "" {
+			return // (no channel inside a finding shape: its known outcome is stated in terms of exchanges)
 		}
 		cc, err := c2.VerifC06ChanOpen(w.l, ss, w.cli)
 		if err != nil {
@@ -748,7 +801,9 @@ func (w *world) exchange(r round) {
 		if c2.VerifC06ServerSession(w.l, w.id) != nil {
 			return // connect() to a server that still holds the session is not modelled
 		}
+		w.stopLoop()
 		w.cli = c2.VerifC06Client(w.id, w.cm)
+		w.consecFail = 0
 		r.Fault, r.Forget = "", 0
 	}
 	if w.cli == nil {
@@ -815,6 +870,9 @@ func (w *world) exchange(r round) {
 		ev = append(ev, fmt.Sprintf("DataSend %s", vh.Bytes(p)))
 	}
 	served := false
+	if w.consecFail >= 5 {
+		r.Fault = "" // listen() closes the Session after 6 consecutive failed exchanges
+	}
 	if r.Fault == "" {
 		r.Err = ""
 	} else if r.Err == "" {
@@ -840,22 +898,60 @@ func (w *world) exchange(r round) {
 	}
 	ok := false
 	pan := ""
-	func() {
-		defer func() {
-			if x := recover(); x != nil {
-				pan = fmt.Sprint(x)
-			}
-		}()
-		if connect {
+	if connect {
+		func() {
+			defer func() {
+				if x := recover(); x != nil {
+					pan = fmt.Sprint(x)
+				}
+			}()
 			ok = c2.VerifC06Hello(w.cli, conn) == nil
-		} else {
-			ok = c2.VerifC06Session(w.cli, conn)
+		}()
+		if ok && pan == "" {
+			// from here on every exchange runs inside the REAL (*Session).listen loop
+			w.prof = &prof{conns: make(chan net.Conn)}
+			w.loop = c2.VerifC06Listen(w.cli, w.prof)
 		}
-	}()
+	} else {
+		if w.loop == nil {
+			w.cli = nil
+			return
+		}
+		conn.closed = make(chan struct{})
+		dead := false
+		select {
+		case w.prof.conns <- conn:
+			select {
+			case <-conn.closed: // session() has returned, listen()'s error branch has run, the connection is closed
+			case <-w.loop.Done:
+				dead = true
+			case <-time.After(20 * time.Second):
+				dead = true
+				out.Fail("an exchange did not finish within 20 s", "harness-timeout", map[string]interface{}{"history": append(w.hist, r)})
+			}
+		case <-w.loop.Done:
+			dead = true
+		case <-time.After(20 * time.Second):
+			dead = true
+			out.Fail("listen() did not ask for a connection within 20 s", "harness-timeout", map[string]interface{}{"history": append(w.hist, r)})
+		}
+		pan = w.loop.VerifC06LoopPanic()
+		if dead && pan == "" {
+			out.Fail("listen() returned in the middle of a history", "listen-ended", map[string]interface{}{"history": append(w.hist, r)})
+			w.loop, w.prof, w.cli = nil, nil, nil
+			return
+		}
+		ok = c2.VerifC06Errors(w.cli) == 0
+		if ok {
+			w.consecFail = 0
+		} else {
+			w.consecFail++
+		}
+	}
 	w.hist = append(w.hist, r)
 	if pan != "" {
-		out.Fail("panic in session()/handle(): "+pan, "history-panic", map[string]interface{}{"history": w.hist})
-		w.cli = nil
+		out.Fail("panic in listen()/session()/handle(): "+pan, "history-panic", map[string]interface{}{"history": w.hist})
+		w.cli, w.loop, w.prof = nil, nil, nil
 		return
 	}
 	if r.Kind == "batch" && c2.VerifC06QueueLen(w.cli) > 0 {
@@ -896,12 +992,31 @@ func (w *world) exchange(r round) {
 	w.classes[r.Kind+"/"+r.Fault+"/"+r.Err] = true
 
 	// ---- the shape of the history (which known finding, if any, it has entered)
+	const (
+		fA  = "rekey-reply-lost-after-server-processed"
+		fA2 = "rekey-reply-lost-then-write-failed"
+		fB  = "rekey-announcement-lost"
+		fD  = "reregister-reply-lost"
+	)
 	pending := cnext != nil
 	switch {
+	case w.taint == fA && r.Fault == "write" && nextBefore != nil && !pending:
+		// the announcement was processed, its reply lost, and before the client could swap a write
+		// failed: keyCheckRevert discards the key the server is already using
+		w.taint = fA2
+	case w.taint == fB && r.Fault == "write" && nextBefore != nil && !pending && w.oldShare != nil && cshare == *w.oldShare:
+		// the undelivered announcement was cancelled by a later failed write: nothing is left of it
+		w.taint, w.oldShare = "", nil
 	case (r.Kind == "rekey" || r.Kind == "batch") && rekeyed && r.Fault == "lost-after" && pending:
-		w.taint = "rekey-reply-lost-after-server-processed"
+		w.taint, w.sinceLoss = fA, 0
+	case (r.Kind == "rekey" || r.Kind == "batch") && rekeyed && r.Fault == "lost-after" && regBefore && !pending:
+		// NOT the known behaviour: the write succeeded, the server swapped, only the reply was lost, and
+		// the client has already discarded the announced key: it can never catch up
+		w.taint, w.sinceLoss = "rekey-reply-lost-never-heals", 0
+		out.Fail("after a re-key whose reply was lost the client no longer holds the announced key (keysNext discarded although the write succeeded): it will never catch up with the server",
+			w.taint, map[string]interface{}{"history": w.hist})
 	case rekeyed && r.Fault == "lost-before" && pending:
-		w.taint = "rekey-announcement-lost"
+		w.taint, w.sinceLoss = fB, 0
 		s := shareBefore
 		w.oldShare = &s
 	case r.Kind == "batch" && rekeyed && r.Fault == "" && w.leftover == nil:
@@ -910,9 +1025,9 @@ func (w *world) exchange(r round) {
 		s := shareBefore
 		w.oldShare = &s
 	case nextBefore != nil && pending && strings.HasPrefix(r.Fault, "lost") && w.taint == "":
-		w.taint = "rekey-reply-lost-after-server-processed"
+		w.taint, w.sinceLoss = fA, 0
 	case r.Kind == "hello" && r.Fault == "lost-after":
-		w.taint = "reregister-reply-lost"
+		w.taint = fD
 	}
 	// ---- oracle
 	completed := ok && r.Fault == ""
@@ -932,21 +1047,47 @@ func (w *world) exchange(r round) {
 	if ss == nil || c2.VerifC06QueueLen(w.cli) > 0 {
 		return // not registered (re-registration in progress): nothing to compare
 	}
+	// The findings are narrow in OUTCOME as well as in shape.  What is known:
+	//  fA : the FIRST completed exchange after the loss is garbled, at its end the client has swapped, both
+	//       shares are equal, keysNext is nil; every later exchange is intact.  Anything else = fA-never-heals.
+	//  fA2: permanent (the client discarded the key the server uses).
+	//  fB : the first completed exchange after the loss is INTACT (both still on the old key), at its end the
+	//       client has swapped and the server has not (server share = old share); permanent from then on.
+	//  fD : permanent (client without the server key).
+	w.sinceLoss++
+	garbledKey, shareKey := w.taint, w.taint
+	switch w.taint {
+	case fA:
+		shareKey = "rekey-reply-lost-never-heals"
+		if w.sinceLoss > 1 {
+			garbledKey = "rekey-reply-lost-never-heals"
+		}
+	case fB:
+		if w.sinceLoss == 1 {
+			garbledKey = "rekey-announcement-lost-first-exchange-garbled"
+		}
+		if w.oldShare != nil && sshare != *w.oldShare {
+			w.failKey("after an undelivered re-key announcement the SERVER share changed", r.Kind, "rekey-announcement-lost-server-key-changed")
+		}
+	}
 	if w.oldShare != nil && cshare != *w.oldShare {
 		w.fail("a re-key whose announcement the server never processed did not leave the sender on the old key (client swapped, server did not)", r.Kind)
 	}
 	if regBefore && !helloNext && !connect {
 		if len(p) > 0 && (len(sgot) != 1 || !bytes.Equal(sgot[0], p)) {
-			w.fail("the server handler did not see the payload the client sent (garbled exchange)", r.Kind)
+			w.failKey("the server handler did not see the payload the client sent (garbled exchange)", r.Kind, garbledKey)
 		}
 		if len(q) > 0 && (len(cgot) != 1 || !bytes.Equal(cgot[0], q)) {
-			w.fail("the client handler did not see the payload the server sent (garbled exchange)", r.Kind)
+			w.failKey("the client handler did not see the payload the server sent (garbled exchange)", r.Kind, garbledKey)
 		}
 	}
-	if cshare != sshare {
-		w.fail("client and server hold different shares after a completed exchange", r.Kind)
-	} else if w.taint == "rekey-reply-lost" && cnext == nil {
-		w.taint = "" // healed: both ends are on the new key again
+	if cshare != sshare || cnext != nil {
+		w.failKey(fmt.Sprintf("client and server hold different shares (or keysNext is still pending: %v) after completed exchange number %d since the history entered its shape", cnext != nil, w.sinceLoss), r.Kind, shareKey)
+		if w.taint == fA {
+			w.taint = "rekey-reply-lost-never-heals"
+		}
+	} else if w.taint == fA {
+		w.taint = "" // healed: both ends are on the new key again; from here on nothing may be garbled
 	}
 }
 
@@ -959,6 +1100,7 @@ func runHistory(rounds []round, class string) {
 	for _, r := range rounds {
 		w.do(r)
 	}
+	w.stopLoop()
 	// ECDH table for every pair of keys seen (crypto/ecdh), both directions checked
 	var tab []string
 	for i := range w.reg.priv {
@@ -1022,14 +1164,18 @@ func corpus() {
 		runHistory([]round{c, lb, rd("data", "", "one", "1"), la, rd("rekey", "", "", ""), rd("data", "", "two", "2")}, "hist-read-fail-kinds")
 	}
 	// KNOWN FINDING rekey-reply-lost-after-server-processed: the server processed the announcement, the reply was lost
-	runHistory([]round{c, rd("data", "", "before", "b"), rd("rekey", "lost-after", "", ""), rd("data", "", "secret-payload", "server-task"), rd("data", "", "healed", "h")}, "hist-finding-reply-lost")
+	runHistory([]round{c, rd("data", "", "before", "b"), rd("rekey", "lost-after", "", ""), rd("data", "", "secret-payload", "server-task"), rd("data", "", "healed", "h"),
+		rd("data", "", "healed-2", "h2"), rd("rekey", "", "", "h3"), rd("data", "", "healed-4", "h4")}, "hist-finding-reply-lost")
+	// KNOWN FINDING rekey-reply-lost-then-write-failed: ... and before the client could swap, a write fails: the revert discards the key the server already uses
+	runHistory([]round{c, rd("data", "", "before", "b"), rd("rekey", "lost-after", "", ""), rd("data", "write", "never-sent", ""), rd("data", "", "secret-payload", "server-task"),
+		rd("data", "", "still-garbled", "g"), rd("data", "", "for-good", "f")}, "hist-finding-reply-lost-then-write-failed")
 	// KNOWN FINDING rekey-announcement-lost: the write succeeded locally, nothing arrived
 	runHistory([]round{c, rd("rekey", "lost-before", "", ""), rd("data", "", "secret-payload", "server-task"), rd("data", "", "still-garbled", "g"),
 		rd("rekey", "", "", ""), rd("data", "", "for-good", "f")}, "hist-finding-announcement-lost")
 	for _, k := range errKinds[1:] {
 		la := rd("rekey", "lost-after", "", "")
 		la.Err = k
-		runHistory([]round{c, la, rd("data", "", "secret-payload", "server-task"), rd("data", "", "healed", "h")}, "hist-finding-reply-lost-kinds")
+		runHistory([]round{c, la, rd("data", "", "secret-payload", "server-task"), rd("data", "", "healed", "h"), rd("data", "", "healed-2", "h2"), rd("data", "", "healed-3", "h3")}, "hist-finding-reply-lost-kinds")
 		lb := rd("rekey", "lost-before", "", "")
 		lb.Err = k
 		runHistory([]round{c, lb, rd("data", "", "secret-payload", "server-task"), rd("data", "", "still-garbled", "g")}, "hist-finding-announcement-lost-kinds")
@@ -1157,6 +1303,7 @@ func genPick(reps int) {
 	ss := c2.VerifC06ServerSession(w.l, w.id)
 	if w.cli == nil || ss == nil {
 		out.Fail("pick cases: the handshake did not complete", "pick-setup", nil)
+		w.stopLoop()
 		return
 	}
 	for rep := 0; rep < reps; rep++ {
@@ -1186,6 +1333,7 @@ func genPick(reps int) {
 			}
 		}
 	}
+	w.stopLoop()
 }
 
 func main() {
